@@ -3,7 +3,8 @@
 From Coq Require Import List Arith Bool Lia.
 Import ListNotations.
 From WG Require Import Algo.EssSpec Algo.EssStatements Algo.EssSpecFacts Algo.Ess
-  Algo.EssMachineStatements Algo.EssFacts Algo.EssSymmStatements Algo.EssSymmFacts.
+  Algo.EssMachineStatements Algo.EssFacts Algo.EssSymmStatements Algo.EssSymmFacts
+  Algo.EssRadiusStatements Algo.EssRadiusFacts.
 
 (** level-iteration BFS computes shortest-path distances; [None] exactly when unreachable *)
 Theorem C16_bfs_dist : S_bfs_dist.
@@ -169,3 +170,101 @@ Proof.
   split; [intros r Hr; vm_compute in Hr; injection Hr as <-; cbn; lia|].
   repeat split; vm_compute; reflexivity.
 Qed.
+
+(* ---- C16a: radius <= n/2 ---- *)
+
+(** in a symmetric graph every node reaches a node whose eccentricity is at most half the
+    size of its connected component *)
+Theorem C16_component_center : S_component_center.
+Proof. exact component_center. Qed.
+Print Assumptions C16_component_center.
+
+(** the radius over a radial set containing the whole connected component of v0 is at most
+    half the size of that component ... *)
+Theorem C16_component_radius_half_size : S_component_radius_half_size.
+Proof. exact component_radius_half_size. Qed.
+Print Assumptions C16_component_radius_half_size.
+
+(** ... hence at most n/2: the initial bound n/2 + 1 of run_symm is never a radius *)
+Theorem C16_component_radius_half : S_component_radius_half.
+Proof. exact component_radius_half. Qed.
+Print Assumptions C16_component_radius_half.
+
+(** the hypothesis "radius <= n/2" of C16_symm_exit_exact / C16_symm_machine_exact follows
+    from: no radial node, or a whole connected component is radial *)
+Theorem C16_radial_closed_radius_half : S_radial_closed_radius_half.
+Proof. exact radial_closed_radius_half. Qed.
+Print Assumptions C16_radial_closed_radius_half.
+
+(** the three symmetric theorems with the structural hypothesis instead of "radius <= n/2" *)
+Theorem C16_symm_run_invariant_closed : S_symm_run_invariant_closed.
+Proof. exact symm_run_invariant_closed. Qed.
+Print Assumptions C16_symm_run_invariant_closed.
+
+Theorem C16_symm_exit_exact_closed : S_symm_exit_exact_closed.
+Proof. exact symm_exit_exact_closed. Qed.
+Print Assumptions C16_symm_exit_exact_closed.
+
+Theorem C16_symm_machine_exact_closed : S_symm_machine_exact_closed.
+Proof. exact symm_machine_exact_closed. Qed.
+Print Assumptions C16_symm_machine_exact_closed.
+
+(** the default radial set of the symmetric case (the connected component of a node c: what
+    compute_radial_vertices marks by a visit from a node of a largest component) satisfies the
+    structural hypothesis *)
+Theorem C16_symm_default_radial_closed : S_symm_default_radial_closed.
+Proof. exact symm_default_radial_closed. Qed.
+Print Assumptions C16_symm_default_radial_closed.
+
+(** hence for the default radial set run_symm needs no side hypothesis at all *)
+Theorem C16_symm_machine_exact_default : S_symm_machine_exact_default.
+Proof. exact symm_machine_exact_default. Qed.
+Print Assumptions C16_symm_machine_exact_default.
+
+(** ... and its output is accepted by the default-radial checker (the harness oracle) *)
+Theorem C16_symm_machine_exact_default_checker : S_symm_machine_exact_default_checker.
+Proof. exact symm_machine_exact_default_checker. Qed.
+Print Assumptions C16_symm_machine_exact_default_checker.
+
+(** non-vacuity of the structural hypothesis: the path 0-1-2-3 plus an isolated node, radial =
+    the path; radius 2 = 4/2 <= 5/2 *)
+Example C16_contains_component_nonvacuous :
+  let g := [[1]; [0; 2]; [1; 3]; [2]; []] in
+  let radial := [true; true; true; true; false] in
+  wf_graph g = true /\ symmetric_graph g /\ contains_component g radial /\
+  radial_closed g radial /\
+  scc_size (dist_matrix g) 0 = 4 /\
+  radius_from (eccs_f (dist_matrix g)) radial = Some 2.
+Proof.
+  cbv zeta.
+  assert (Hc : contains_component [[1]; [0; 2]; [1; 3]; [2]; []] [true; true; true; true; false]).
+  { exists 0. split; [cbn; lia|]. split; [reflexivity|]. intros v Hv. cbn in Hv.
+    do 5 (destruct v as [|v]; [vm_compute; try reflexivity; intros H; exfalso; apply H; reflexivity|]).
+    lia. }
+  split; [reflexivity|]. split.
+  { intros u v H. do 5 (destruct u as [|u]; [cbn in H; cbn; intuition (subst; cbn; auto)|]).
+    destruct u; destruct H. }
+  split; [exact Hc|]. split; [right; exact Hc|].
+  split; vm_compute; reflexivity.
+Qed.
+
+(** the closed machine theorem applies to the run of C16_symm_nonvacuous without any
+    hypothesis on the radius: the default radial set of node 0 *)
+Example C16_symm_default_nonvacuous :
+  let g := [[1]; [0; 2]; [1; 3]; [2; 4]; [3]; []] in
+  let dm := dist_matrix g in
+  let radial := radial_of dm 0 in
+  let all := [0; 1; 2; 3; 4; 5] in
+  let x1 := run_ops true dm radial [OFwd 0 all] (init_st 6 true) in
+  let ops := [OFwd 0 all; OAll (best_pivots true true dm 6 (tot_sym dm 6 [0]) x1) all; OBwd 4 all; OFwd 2 all; OFwd 3 all] in
+  In 0 (largest_scc_nodes dm) /\ contains_component g radial /\
+  fst (replay true g radial ops LAll) = 0 /\
+  check_ess_default g (snd (replay true g radial ops LAll)) LAll = true.
+Proof.
+  cbv zeta. split; [vm_compute; left; reflexivity|]. split.
+  { apply C16_symm_default_radial_closed; [reflexivity | | cbn; lia].
+    intros u v H. do 6 (destruct u as [|u]; [cbn in H; cbn; intuition (subst; cbn; auto)|]).
+    destruct u; destruct H. }
+  split; vm_compute; reflexivity.
+Qed.
+(* ---- end C16a ---- *)
